@@ -47,13 +47,14 @@ def check_desc(desc):
         O.fail(key, dict(w, rule=text), 'the suggested rule matches the description it was suggested for', 'no match', 'parse_merchants(rule).match(description)')
 
 
-def check_loop():
-    """discover -> write the suggested rules -> discover again: the Unknown list must shrink to nothing"""
+def check_loop(transforms=''):
+    """discover -> write the suggested rules -> discover again: the Unknown list must shrink to nothing (also when the rules file has field
+    transforms: rules are matched against the transformed description)"""
     b = Budget()
     try:
-        descs = ['STARBUCKS STORE 00012345 SEATTLE WA', 'SQ *FARMERS MARKET', "JOE'S DINER #12", 'ACME.COM*ORDER', 'PLAIN']
+        descs = ['STARBUCKS STORE 00012345 SEATTLE WA', 'SQ *FARMERS MARKET', "JOE'S DINER #12", 'ACME.COM*ORDER', 'PLAIN', 'PAYPAL *SPOTIFY', 'DD *DOORDASH WENDYS']
         b.write('data/card.csv', 'Date,Description,Amount\n' + ''.join('01/0%d/2025,%s,%d.00\n' % (i + 1, d, 10 + i) for i, d in enumerate(descs)))
-        b.write('config/merchants.rules', '[Plain]\nmatch: contains("PLAIN")\ncategory: P\nsubcategory: Q\n')
+        b.write('config/merchants.rules', transforms + '[Plain]\nmatch: contains("PLAIN")\ncategory: P\nsubcategory: Q\n')
         b.settings({'year': 2025, 'merchants_file': 'config/merchants.rules',
                     'data_sources': [{'name': 'Card', 'file': 'data/card.csv', 'format': '{date:%m/%d/%Y}, {description}, {amount}'}]})
         out, err, code = run_cmd(cmd_discover, config=b.config, settings='settings.yaml', limit=0, format='json')
@@ -77,7 +78,7 @@ def check_loop():
             except Exception:
                 left = ['<discover failed: %s>' % (out2 + err2)[-150:]]
         if left:
-            O.fail('C19.unknown_list_does_not_shrink', {'loop': [d['raw_description'] for d in disc]}, [], left, 'discover; append suggested rules; discover')
+            O.fail('C19.unknown_list_does_not_shrink', {'loop': [d['raw_description'] for d in disc], 'transforms': transforms}, [], left, 'discover; append suggested rules; discover')
     finally:
         b.close()
 
@@ -87,7 +88,7 @@ def main():
         if 'description' in O.witness:
             check_desc(O.witness['description'])
         else:
-            check_loop()
+            check_loop(O.witness.get('transforms', ''))
         O.finish()
     n = 0
     maxlen = 3 if O.tier == 'quick' else 4
@@ -102,6 +103,8 @@ def main():
                 for sep in (' ', '  '):
                     check_desc(pre + sep.join(toks))
     check_loop()
+    check_loop('field.description = regex_replace(field.description, "^PAYPAL \\\\*", "")\n\n')
+    check_loop('field.description = regex_replace(regex_replace(field.description, "^DD \\\\*DOORDASH ", ""), "^SQ \\\\*", "SQUARE ")\n\n')
     O.sample({'description': 'STARBUCKS STORE 00012345'})
     O.finish()
 
